@@ -29,7 +29,10 @@ FUNCS = ["graphslam.graph.Graph.from_g2o", "graphslam.vertex.Vertex.from_g2o", "
          "graphslam.edge.edge_landmark.EdgeLandmark.from_g2o", "graphslam.g2o_parameters.G2OParameterSE2Offset.from_g2o",
          "graphslam.g2o_parameters.G2OParameterSE3Offset.from_g2o", "graphslam.util.upper_triangular_matrix_to_full_matrix", "graphslam.load.load_g2o"]
 
-JUNK = ["", "   ", "# a comment", "FIX 0", "VERTEX_SE2x 1 2 3 4", "EDGE_SE2_XYZ 1 2 3", "vertex_se2 1 0 0 0"]
+JUNK = ["", "   ", "# a comment", "FIX 0", "VERTEX_SE2x 1 2 3 4", "EDGE_SE2_XYZ 1 2 3", "vertex_se2 1 0 0 0",
+        # junk whose FIRST TOKEN is a supported keyword (bare tag, tag followed by a TAB): still unrecognised, and it must not
+        # affect the well-formed lines of that keyword that follow
+        "VERTEX_SE2", "EDGE_SE2\t1 2 3", "EDGE_SE3:QUAT", "PARAMS_SE3OFFSET\t9", "EDGE_DISTANCE"]
 
 
 def num(k, s):
@@ -225,10 +228,19 @@ def check_graph(k, g, lines, label=""):
     k.check(len(g._vertices) == len(vlines), label + "one vertex per vertex line", (len(g._vertices), len(vlines)))
     k.check(len(g._edges) == len(elines), label + "one edge per edge line", (len(g._edges), len(elines)))
     k.check(g._g2o_params is not None and len(g._g2o_params) == len(plines), label + "one parameter per parameter line")
+    def guarded(fn, *a):
+        # a mis-parsed object can have any shape: inspecting it must not crash the check
+        from gsv.engine_common import is_control_exception
+        try:
+            fn(*a)
+        except Exception as e:      # noqa: BLE001
+            if is_control_exception(e):
+                raise
+            k.check(False, a[-1] + ": object has the expected structure", "%s: %s" % (type(e).__name__, e))
     for v, l in zip(g._vertices, vlines):
-        check_vertex(k, v, l, label + "%s %s" % (l.tag, l.ids[0]))
+        guarded(check_vertex, k, v, l, label + "%s %s" % (l.tag, l.ids[0]))
     for e, l in zip(g._edges, elines):
-        check_edge(k, e, l, g._g2o_params or {}, label + "%s %s" % (l.tag, "-".join(map(str, l.ids))))
+        guarded(check_edge, k, e, l, g._g2o_params or {}, label + "%s %s" % (l.tag, "-".join(map(str, l.ids))))
     for l in plines:
         key = (l.tag, l.ids[0])
         k.check(key in (g._g2o_params or {}), label + "%s %s kept by key" % key)
@@ -263,7 +275,7 @@ def obligations(r, tier, seed):
     # ---- junk / blank lines at every position
     for pos in range(0, 14, (1 if tier == "thorough" else 3)):
         for ji, junk in enumerate(JUNK):
-            if tier == "quick" and (pos + ji) % 3:
+            if tier == "quick" and (pos + ji) % 3 and not (ji >= 7 and pos == 0):
                 continue
             def with_junk(k, pos=pos, junk=junk):
                 lines = standard_lines(k)
